@@ -265,7 +265,10 @@ void Router::modifyConnectionPin(ShapeConnectionPin *pin)
         actionList.push_back(modInfo);
     }
 
-    if (!m_consolidate_actions)
+    // Pins are also removed from the destructor of their shape or junction.
+    // Don't start (a nested) processing of the transaction from there: the
+    // owner is half destroyed and may be being deleted by processActions().
+    if (!m_consolidate_actions && !m_currently_calling_destructors)
     {
         processTransaction();
     }
